@@ -52,6 +52,8 @@ FIXES = [
  ('C14','a hunk that starts with a merge conflict gets its hunk header','merge_conflict.rs: when the first line of a hunk of a combined diff was `++<<<<<<<`, the hunk header was never written and the syntax highlighter not set up for the hunk (conflict lines painted with the previous hunk\'s / file\'s highlighter state; also C10, C15)'),
  ('C19','hyperlinks in diffstat lines under --relative-paths point at the file','diff_stat.rs: under --relative-paths with GIT_PREFIX the link of a diffstat line joined the repository-relative path to the user\'s directory: `sub/a.rs` seen from sub/ linked to <root>/sub/sub/a.rs'),
  ('C15','the lines of a removed file are highlighted in the language of that file','diff_header.rs: `+++ /dev/null` reset the language chosen at `--- a/file`, so the removed lines of a deleted file were painted with the default language (no highlighting under `--minus-style "syntax ..."` / side-by-side) although its name has a language'),
+ ('C14','the name of a modified binary file honours --relative-paths again',"diff_header_diff.rs: under --relative-paths with GIT_PREFIX the header of a binary file modified in place showed the repository-relative name (the names from the `diff --git` line were no longer relativized after fix 3c7468b had moved that step) while all other headers were relative; also wrong link target (C19)"),
+ ('C09','width and precision of {commit} in --blame-format apply to the commit','blame.rs: with --hyperlinks on a terminal the {commit} field was wrapped in an OSC 8 link before padding/cutting: a precision cut the escape sequence (link never closed, sequence cut at the line end) and the width was computed from the URL (columns misaligned; C19 transparency)'),
 ]
 out = []
 for prop, pat, what in FIXES:
